@@ -8,6 +8,7 @@ import (
 	"runtime/debug"
 	"sort"
 	"strconv"
+	"strings"
 	"time"
 )
 
@@ -29,6 +30,7 @@ func main() {
 	verif := flag.String("verif", "/verif", "verif root (evidence, known findings)")
 	replay := flag.String("replay", "", "replay file: re-evaluate the recorded obligation on the current tree")
 	list := flag.Bool("list", false, "list properties")
+	allprops := flag.Bool("allprops", false, "run the quick tier of every property on one load of -repo (used by the self test); prints ALLPROPS-END <id> <exit code> per property")
 	flag.Parse()
 	if t := os.Getenv("VERIF_TIER"); t != "" && *tier == "" {
 		*tier = t
@@ -50,6 +52,10 @@ func main() {
 	}
 	if *replay != "" {
 		os.Exit(doReplay(*replay, *repo, *verif, seed))
+	}
+	if *allprops {
+		runAllProps(*repo, *verif, seed)
+		return
 	}
 	fn, ok := registry[*prop]
 	if !ok {
@@ -168,4 +174,40 @@ func doReplay(path, repo, verif string, seed int64) int {
 	}
 	fmt.Printf("obligation %q no longer exists on the current tree\n", rec.Obligation.Construct)
 	return 0
+}
+
+// runAllProps: the quick tier of every property on one load of the tree (the self test analyses several hundred variant
+// trees; loading each once instead of once per property is what makes the thorough tier affordable). Every property gets
+// its own Run; the rules share only the loaded program and its lazily computed, property-independent models.
+func runAllProps(repo, verif string, seed int64) {
+	ids := []string{}
+	for id := range registry {
+		if strings.HasPrefix(id, "C") && len(id) == 3 {
+			ids = append(ids, id)
+		}
+	}
+	sort.Strings(ids)
+	c, err := LoadNormalized(repo, "amd64", nil)
+	for _, id := range ids {
+		fmt.Printf("ALLPROPS-BEGIN %s\n", id)
+		code := 1
+		func() {
+			defer func() {
+				if p := recover(); p != nil {
+					fmt.Printf("CHECKER-PANIC: %v\n", p)
+					code = 1
+				}
+			}()
+			if err != nil {
+				fmt.Printf("LOAD FAILED (amd64): %v\n", err)
+				return
+			}
+			start := time.Now()
+			r := newRun(id, "quick", c)
+			r.Explain = explanations[id]
+			registry[id](r)
+			code = r.Finish(verif, start, seed, map[string]interface{}{}, nil)
+		}()
+		fmt.Printf("ALLPROPS-END %s %d\n", id, code)
+	}
 }
